@@ -7,6 +7,17 @@ require (
 	pgregory.net/rapid v1.3.0
 )
 
-require github.com/aclements/go-moremath v0.0.0-20210112150236-f10218a38794 // indirect
+require (
+	git.sr.ht/~sbinet/gg v0.3.1 // indirect
+	github.com/aclements/go-moremath v0.0.0-20210112150236-f10218a38794 // indirect
+	github.com/ajstarks/svgo v0.0.0-20211024235047-1546f124cd8b // indirect
+	github.com/go-fonts/liberation v0.2.0 // indirect
+	github.com/go-latex/latex v0.0.0-20210823091927-c0d11ff05a81 // indirect
+	github.com/go-pdf/fpdf v0.6.0 // indirect
+	github.com/golang/freetype v0.0.0-20170609003504-e2365dfdc4a0 // indirect
+	golang.org/x/image v0.26.0 // indirect
+	golang.org/x/text v0.24.0 // indirect
+	gonum.org/v1/plot v0.10.1 // indirect
+)
 
 replace golang.org/x/perf => /repo
